@@ -166,7 +166,9 @@ class Expr:
         return Expr(ev, self.name)
 
     def alias(self, name):
-        return Expr(self.ev, name, multi=self.multi)
+        e = Expr(self.ev, name, multi=self.multi)
+        e.is_lit = getattr(self, "is_lit", False)
+        return e
 
     def all(self, ignore_nulls=True):
         def ev(fr):
@@ -194,8 +196,26 @@ class Expr:
     def str(self):
         return _StrNS(self)
 
-    def cast(self, dtype, strict=True):
-        raise Unsupported("Expr.cast")
+    def cast(self, dtype, strict=True, **kw):
+        """Expr.cast(dtype, strict=False): element-wise, a null stays null, a value the cast cannot convert becomes null.  Which VALUES
+        are convertible is an uninterpreted predicate `castable` of the value (one per path: cur().ghost["castable"]).  A cast polars
+        has no kernel for fails the whole query when it is collected (InvalidOperationError / ComputeError) - also with strict=False:
+        the frame that evaluates the expression is marked `may_fail_when_collected`."""
+        if strict:
+            raise Unsupported("strict Expr.cast")
+        castable = cur().ghost.get("castable")
+        if castable is None:
+            castable = cur().ghost["castable"] = z3.Function(cur().fresh_name("castable"), z3.RealSort(), z3.BoolSort())
+
+        def ev(fr):
+            c = self.ev(fr)
+            cur().ghost["polars_cast_evaluated"] = True
+            cur().ghost.setdefault("polars_casts", []).append({"source": c, "dtype": dtype, "strict": strict})
+            return Col(c.at, lambda i: z3.Or(c.null(i), z3.Not(castable(_term(c.at(i))))), c.kind)
+
+        e = Expr(ev, self.name, multi=self.multi)
+        e.is_lit = getattr(self, "is_lit", False)
+        return e
 
     def map_elements(self, fn, return_dtype=None, **kw):
         I = cur().ghost["interp"]
@@ -333,6 +353,7 @@ class FrameP:
         self.agg = agg  # a 1-row aggregate frame
         self.pre = False
         self.mutations = []
+        self.may_fail_when_collected = False  # the query contains a cast polars may have no kernel for
 
     @classmethod
     def fresh(cls, name, columns=("a",), kinds=None, kind="LazyFrame", pre=True):
@@ -373,6 +394,8 @@ class FrameP:
     def derive(self, cols=None, sel=None, kind=None, agg=None):
         f = FrameP(self.space, dict(cols if cols is not None else self.cols), sel or self._sel, kind or self.kind, self.name,
                    self.agg if agg is None else agg)
+        if getattr(self, "may_fail_when_collected", False):
+            f.may_fail_when_collected = True
         return f
 
     # ---- polars API
@@ -380,6 +403,13 @@ class FrameP:
         return self.derive(kind="LazyFrame")
 
     def collect(self, **kw):
+        if getattr(self, "may_fail_when_collected", False) and self.kind == "LazyFrame":
+            import polars as pl
+
+            k = cur().choose([("collects", None), ("InvalidOperationError", None), ("ComputeError", None)], "collect(query with a cast)")
+            if k:
+                I = cur().ghost["interp"]
+                raise PyExc(I.make_exc([pl.exceptions.InvalidOperationError, pl.exceptions.ComputeError][k - 1], "cast failed"))
         return self.derive(kind="DataFrame")
 
     def clone(self):
@@ -422,7 +452,18 @@ class FrameP:
                 continue
             out[k] = e.ev(self)
             agg = agg or getattr(e, "aggregate", False)
-        return self.derive(cols=out, agg=agg or self.agg)  # (a projection of a 1-row aggregate frame is a 1-row frame)
+        every = [e for e in flat if isinstance(e, Expr)] + [e for e in named.values() if isinstance(e, Expr)]
+        if every and len(every) == len(flat) + len(named) and all(getattr(e, "is_lit", False) for e in every) and not self.agg:
+            # only literals selected: polars does not broadcast them to the frame's height - the result has exactly one row
+            one = FrameP(RowSpace("literal_row", SNum(z3.IntVal(1))), out, None, self.kind, self.name, True)
+            return one
+        r = self.derive(cols=out, agg=agg or self.agg)  # (a projection of a 1-row aggregate frame is a 1-row frame)
+        return self._mark_cast(r)
+
+    def _mark_cast(self, r):
+        if cur().ghost.pop("polars_cast_evaluated", False) or getattr(self, "may_fail_when_collected", False):
+            r.may_fail_when_collected = True
+        return r
 
     def with_columns(self, *exprs, **named):
         out = dict(self.cols)
@@ -435,7 +476,7 @@ class FrameP:
             out[e.name] = e.ev(self)
         for k, e in named.items():
             out[k] = e.ev(self) if isinstance(e, Expr) else e
-        return self.derive(cols=out)
+        return self._mark_cast(self.derive(cols=out))
 
     def filter(self, mask):
         if isinstance(mask, Expr):
@@ -648,7 +689,9 @@ def _multi(e):
 
 
 def lit(v):
-    return Expr(lambda fr: _lit_col(v), "literal")
+    e = Expr(lambda fr: _lit_col(v), "literal")
+    e.is_lit = True  # refers to no column: selected on its own it is ONE row, whatever the height of the frame
+    return e
 
 
 def fold(acc, function, exprs):
@@ -689,7 +732,10 @@ def concat(items, how="vertical", **kw):
             if f.space is not base.space:
                 raise Unsupported("horizontal concat of unrelated frames")
             cols.update(f.cols)
-        return base.derive(cols=cols)
+        r = base.derive(cols=cols)
+        if any(getattr(f, "may_fail_when_collected", False) for f in items):
+            r.may_fail_when_collected = True
+        return r
     if not all(f.space is items[0].space for f in items):
         raise Unsupported("vertical concat of unrelated frames")
     return _ConcatP(items)
@@ -717,6 +763,17 @@ def install(I):
     M[id(pl.lit)] = lambda I, v: lit(v)
     M[id(pl.fold)] = lambda I, acc=None, function=None, exprs=None: fold(acc, function, exprs)
     M[id(pl.concat)] = lambda I, items, how="vertical", **kw: concat(items, how=how)
+
+    def all_horizontal(I, *names):
+        es = [col(n) if isinstance(n, str) else n for n in names]
+        if any(e.multi is not None for e in es):
+            raise Unsupported("pl.all_horizontal over a selector")
+        r = es[0]
+        for e in es[1:]:
+            r = r.and_(e)
+        return r
+
+    M[id(pl.all_horizontal)] = all_horizontal
 
     def lazyframe_ctor(I, data=None, **kw):
         if isinstance(data, FrameP):
